@@ -9,6 +9,8 @@
    of one length for all numbers of the column and for zero ([uniform]); it is [True] for every
    other datatype.  The harness validates it against the real DisplayContext on every run. *)
 From Coq Require Import ZArith List Bool Arith Lia.
+From Coq Require String.
+From Verif Require Model.PyMini Model.PrimsRender Gen.SrcRender Proofs.SrcRender Proofs.SrcRenderTop Proofs.SrcRenderCsv.
 Import ListNotations.
 From Verif Require Import Base.Out Base.StableSort Base.PyValue Model.Render Model.RenderCheck Proofs.RenderProofs Proofs.RenderCheckProofs.
 
@@ -215,8 +217,8 @@ Proof. vm_compute. reflexivity. Qed.
    methods (Model/PyMini.v) on the encoded values of Model/PrimsRender.v (which fixes what str, max, rjust, ljust,
    strftime, as_tuple and the f-string alignment specs are assumed to do) yields the renderer functions of
    Model/Render.v the theorems above are stated over. *)
-From Coq Require Import String.
-From Verif Require Import Model.PyMini Model.PrimsRender Gen.SrcRender Proofs.SrcRender.
+Import Coq.Strings.String Verif.Model.PyMini Verif.Model.PrimsRender Verif.Gen.SrcRender Verif.Proofs.SrcRender
+  Verif.Proofs.SrcRenderTop Verif.Proofs.SrcRenderCsv.
 
 Theorem C16_source_base_prepare : forall (call_ref : nat -> list pv -> pv) (w p : pv) (rest : env),
   call_method call_ref prims_render render_base_prepare (("maxwidth", w) :: ("prepared", p) :: rest)%string [] =
@@ -305,3 +307,47 @@ Example C16_source_decimal_example :
   call_method cr prims_render render_decimal_format (dec_ready (4, 1)%Z []) [PV (VDec (mkdec false 125 (-1)))] =
     Ok (dec_ready (4, 1)%Z [], PV (VStr [32; 32; 49; 50; 46; 53]%Z)).
 Proof. repeat split; vm_compute; reflexivity. Qed.
+
+(* ---- top level: render_rows.  The translated generator function, run on encoded rows, a list of column renderers
+   (each the renderer of its datatype after update() over the values [snd tv]) and the RenderContext of options o, yields
+   lines (lists / tuples of str) that read back as exactly Render.render_rows: NULL placeholder, list cells expanded into
+   max(1, longest) lines padded with '', the spacing row. *)
+Theorem C16_source_render_rows : forall (call_ref : nat -> list pv -> pv) (quant : dec -> str -> dec)
+    (numfmt : list (dec * str) -> dec -> str -> str) (dc : pv) (o : opts) (tvs : list (dtype * list cellv))
+    (rows : list (list cellv)),
+  exists vs,
+    call_function call_ref (prims_top quant numfmt) render_rows_fn
+      [PList (map enc_rrow rows); PList (map (rend dc o) tvs); enc_ctx dc o] = Ok (PList vs) /\
+    n_map_opt line_of vs = Some (render_rows numfmt o (map (rstate_of quant o) tvs) rows).
+Proof. exact render_rows_src. Qed.
+Print Assumptions C16_source_render_rows.
+
+Example C16_source_render_rows_example :
+  let o := mkopts false false true true true [45] [44] in
+  let tvs := [(TInt, [CInt 7]); (TStr, [CStr [97]])] in
+  call_function (fun _ _ => PNone) (prims_top no_quant no_numfmt) render_rows_fn
+    [PList (map enc_rrow [[CInt 7; CNull]]); PList (map (rend PNone o) tvs); enc_ctx PNone o] =
+  Ok (PList [PList [enc_s [55]; enc_s [45]]; PList [enc_s []; enc_s []]]).
+Proof. vm_compute. reflexivity. Qed.
+
+(* ---- render_csv (PARTIAL).  Intended full statement, not yet proved:
+     running render_csv_fn on (columns desc, rows, dcontext, file content f0, expand, nullvalue) leaves in `writer`
+     csv_writer (f0 ++ flat_map csv_record (csv_records o desc rows))   [= f0 ++ the text of Render.render_csv].
+   Proved below: the body of its priming loop `for row in rows:` (selected from the translated render_csv), for every
+   list of renderers with their histories and every row: exactly the renderers zipped with a non-NULL cell have that
+   cell appended to what update() has seen (upd), order and length of the list unchanged.  Missing for the full
+   statement: the induction over rows up to Render.column / col_states, the prepare() comprehension and the three writer
+   statements (the call of render_rows is C16_source_render_rows). *)
+Theorem C16_source_render_csv_prime_row_partial : forall (call_ref : nat -> list pv -> pv) (quant : dec -> str -> dec)
+    (numfmt : list (dec * str) -> dec -> str -> str) (dc : pv) (ex : bool) (nl : str)
+    (tvs : list (dtype * list cellv)) (r : list cellv) (loc : env),
+  lookup "renderers"%string loc = Some (PList (map (rend dc (oc ex nl)) tvs)) ->
+  exists loc',
+    PyMini.exec_block call_ref (prims_top quant numfmt)
+      (write {| locals := loc; fields := [] |} (TName "row"%string) (enc_rrow r)) csv_loop =
+    Ok (Next {| locals := loc'; fields := [] |}) /\
+    lookup "renderers"%string loc' = Some (PList (map (rend dc (oc ex nl)) (upd tvs r))) /\
+    (forall x, String.eqb x "$new" = false -> String.eqb x "value" = false -> String.eqb x "renderer" = false ->
+               String.eqb x "renderers" = false -> String.eqb x "row" = false -> lookup x loc' = lookup x loc).
+Proof. exact prime_row. Qed.
+Print Assumptions C16_source_render_csv_prime_row_partial.
